@@ -102,6 +102,31 @@ def rule_exec_order(chk: Check, model, rid: str, cv: CompiledView):
     scans = [e for e in sub.events if e.kind == "call" and e.name == "jax.lax.scan" and e.func == fi.qualname]
     ok = len(scans) == 1 and scans[0].args[0] == cv.outer.env[model.local_name("partition_runner.make_run_partition_excl_supervisor._run_generation")]
     chk.add(rid, "uniform supergraph: scan of _run_generation", ok, "the uniform branch must scan _run_generation over the stacked slot timings", chk.loc(fi))
+    # ... which is only sound when every generation holds the same kinds with the same counts (slot i of every kind is then one
+    # generation): the uniformity test must compare each generation's kind counts with the first generation's
+    f_u = model.func("utils.check_generations_uniformity")
+    chk.used(f_u.qualname)
+    ru = SymEval(model).run_function(f_u)
+    gl = [l for l in ru.loops.values() if l.kind == "for" and l.iter == S("generations")]
+    rets = [e for e in ru.events if e.kind == "return" and e.func == f_u.qualname]
+    oku = len(gl) == 1 and len(rets) == 2
+    if oku:
+        l = gl[0]
+        neg = [e for e in rets if e.term == T.FALSE and e.loops == (l.uid,)]
+        pos = [e for e in rets if e.term == T.TRUE and not e.loops and e.guard == T.TRUE]
+        oku = len(neg) == 1 and len(pos) == 1 and len(l.env_in) == 1
+        if oku:
+            (nm, first), = l.env_in.items()
+            el = ("elem", l.iter, l.uid)
+            neqs = [a for a in flow.bool_atoms(neg[0].guard, []) if a[0] == "eq" and first in a[1] and a != T.eq(first, T.NONE, numeric=False)]
+            oku = len(neqs) == 1 and flow.implies(neg[0].guard, T.mk_not(neqs[0])) and flow.implies(neg[0].guard, T.mk_not(T.eq(first, T.NONE, numeric=False)))
+            if oku:
+                cur = [x for x in neqs[0][1] if x != first][0]
+                # the compared value is this generation's own table of kinds (built from this generation only) and becomes `first` once
+                oku = any(x == el for x in T.walk(cur)) and any(x[0] == "attr" and x[2] == "kind" for x in T.walk(cur)) and l.pre.get(nm) == T.NONE \
+                    and l.env_out.get(nm) == T.mk_ite(T.eq(first, T.NONE, numeric=False), cur, first)
+    chk.add(rid, "uniform supergraph: every generation has the first generation's kinds and counts", bool(oku), "check_generations_uniformity must return False as soon as one generation's "
+            "kind counts differ from the first generation's (equal totals per kind are not enough: stacked slots of a kind would run side by side although they depend on each other)", chk.loc(f_u))
     # sorted by generation (outer function)
     f_out = model.func("partition_runner.make_run_partition_excl_supervisor")
     srt = [e for e in cv.outer.events if e.kind == "call" and e.name == "sorted" and e.func == f_out.qualname]
